@@ -95,3 +95,118 @@ Theorem C05_replicated_stack_blockdiag : forall k m n (A : cmat) (xs : list cvec
   c_mv (rep_mat k m n 0 0 A) (concat xs) = concat (map (c_mv A) xs).
 Proof. exact rep_mat_blockdiag. Qed.
 Print Assumptions C05_replicated_stack_blockdiag.
+
+(** ** Tie to the source.  The closure pairs (eval_fn, adj_fn) that scico/linop/_linop.py builds
+    (modules SVGen.C05_Linop, C05_LinopComp, C05_LinopNeg, regenerated by tools/py2coq.py on
+    every run), read at K^n over any ring with involution ([MatLin]: + is vadd, - is adding the
+    opposite, c * v is vscale, v / c is vscale (rinv c), v.conj() is vconj), are the one-step
+    clauses of the model [fden] / [fadj] the theorems above are about.  [F e] = (fden e, fadj e). *)
+From Coq Require Import List Bool Reals.
+From SV Require Import Base.Num C11.Overload LinAlg.GenSig LinAlg.Mat LinAlg.MExpr Base.InnerSpace LinAlg.AdjCalc LinAlg.Gen.
+From SVGen Require C05_Linop C05_LinopComp C05_LinopNeg.
+
+(** __add__: (self(x) + other(x), self.adj(x) + other.adj(x)) is the MAdd clause of fden / fadj *)
+Theorem C05_gen_add :
+  forall (K : Type) (r0 : K) (radd rmul : K -> K -> K) (ropp cj rinv : K -> K) (n : nat) (a b : mexpr K), @C05_Linop.__add___gen K (vec K) (vec K) (MatLin K radd rmul ropp cj rinv) (MatLin K radd rmul ropp cj rinv) (F K r0 radd rmul ropp cj n a) (F K r0 radd rmul ropp cj n b) = F K r0 radd rmul ropp cj n (@MAdd K a b).
+Proof. exact (@Gen.add_is_clause). Qed.
+Print Assumptions C05_gen_add.
+
+(** __sub__ is the MSub clause *)
+Theorem C05_gen_sub :
+  forall (K : Type) (r0 : K) (radd rmul : K -> K -> K) (ropp cj rinv : K -> K) (n : nat) (a b : mexpr K), @C05_Linop.__sub___gen K (vec K) (vec K) (MatLin K radd rmul ropp cj rinv) (MatLin K radd rmul ropp cj rinv) (F K r0 radd rmul ropp cj n a) (F K r0 radd rmul ropp cj n b) = F K r0 radd rmul ropp cj n (@MSub K a b).
+Proof. exact (@Gen.sub_is_clause). Qed.
+Print Assumptions C05_gen_sub.
+
+(** __mul__ / __rmul__ by a scalar c: (c * self(x), conj(c) * self.adj(x)) is the MScale clause *)
+Theorem C05_gen_mul :
+  forall (K : Type) (r0 r1 : K) (radd rmul : K -> K -> K) (ropp cj rinv : K -> K) (n : nat) (c : K) (a : mexpr K), @C05_Linop.__mul___gen K (vec K) (vec K) (MatSc K r1 ropp cj) (MatLin K radd rmul ropp cj rinv) (MatLin K radd rmul ropp cj rinv) (F K r0 radd rmul ropp cj n a) c = F K r0 radd rmul ropp cj n (@MScale K c a) /\ @C05_Linop.__rmul___gen K (vec K) (vec K) (MatSc K r1 ropp cj) (MatLin K radd rmul ropp cj rinv) (MatLin K radd rmul ropp cj rinv) (F K r0 radd rmul ropp cj n a) c = F K r0 radd rmul ropp cj n (@MScale K c a).
+Proof. exact (@Gen.mul_is_clause). Qed.
+Print Assumptions C05_gen_mul.
+
+(** __neg__ = (-1.0) * self is MScale (-1) *)
+Theorem C05_gen_neg :
+  forall (K : Type) (r0 r1 : K) (radd rmul : K -> K -> K) (ropp cj rinv : K -> K) (n : nat) (a : mexpr K), @C05_LinopNeg.__neg___gen K (vec K) (vec K) (MatSc K r1 ropp cj) (MatLin K radd rmul ropp cj rinv) (MatLin K radd rmul ropp cj rinv) (F K r0 radd rmul ropp cj n a) = F K r0 radd rmul ropp cj n (@MScale K (ropp r1) a).
+Proof. exact (@Gen.neg_is_clause). Qed.
+Print Assumptions C05_gen_neg.
+
+(** __truediv__: (self(x) / c, self.adj(x) / conj(c)) is MScale (1/c), division being multiplication by the inverse *)
+Theorem C05_gen_truediv :
+  forall (K : Type) (r0 r1 : K) (radd rmul : K -> K -> K) (ropp cj rinv : K -> K) (n : nat) (c : K) (a : mexpr K), cj (rinv c) = rinv (cj c) -> (forall x : vec K, @l_eval (vec K) (vec K) (@C05_Linop.__truediv___gen K (vec K) (vec K) (MatSc K r1 ropp cj) (MatLin K radd rmul ropp cj rinv) (MatLin K radd rmul ropp cj rinv) (F K r0 radd rmul ropp cj n a) c) x = fden K r0 radd rmul ropp cj n (@MScale K (rinv c) a) x) /\ (forall y : vec K, @l_adj (vec K) (vec K) (@C05_Linop.__truediv___gen K (vec K) (vec K) (MatSc K r1 ropp cj) (MatLin K radd rmul ropp cj rinv) (MatLin K radd rmul ropp cj rinv) (F K r0 radd rmul ropp cj n a) c) y = fadj K r0 radd rmul ropp cj n (@MScale K (rinv c) a) y).
+Proof. exact (@Gen.truediv_is_clause). Qed.
+Print Assumptions C05_gen_truediv.
+
+(** .T: for a complex input dtype conj(adj(conj x)) / conj(self(conj x)) (the MT clause), else (adj, eval) (= MH) *)
+Theorem C05_gen_T :
+  forall (K : Type) (r0 : K) (radd rmul : K -> K -> K) (ropp cj rinv : K -> K) (n : nat) (cplx : bool) (a : mexpr K), @C05_Linop.T_gen K (vec K) (vec K) (MatLin K radd rmul ropp cj rinv) (MatLin K radd rmul ropp cj rinv) cplx (F K r0 radd rmul ropp cj n a) = (if cplx then F K r0 radd rmul ropp cj n (@MT K a) else F K r0 radd rmul ropp cj n (@MH K a)).
+Proof. exact (@Gen.T_is_clause). Qed.
+Print Assumptions C05_gen_T.
+
+(** .H is the MH clause (closures swapped) *)
+Theorem C05_gen_H :
+  forall (K : Type) (r0 : K) (radd rmul : K -> K -> K) (ropp cj : K -> K) (n : nat) (a : mexpr K), @C05_Linop.H_gen (vec K) (vec K) (F K r0 radd rmul ropp cj n a) = F K r0 radd rmul ropp cj n (@MH K a).
+Proof. exact (@Gen.H_is_clause). Qed.
+Print Assumptions C05_gen_H.
+
+(** .conj() is the MConj clause *)
+Theorem C05_gen_conj :
+  forall (K : Type) (r0 : K) (radd rmul : K -> K -> K) (ropp cj rinv : K -> K) (n : nat) (a : mexpr K), @C05_Linop.conj_gen K (vec K) (vec K) (MatLin K radd rmul ropp cj rinv) (MatLin K radd rmul ropp cj rinv) (F K r0 radd rmul ropp cj n a) = F K r0 radd rmul ropp cj n (@MConj K a).
+Proof. exact (@Gen.conj_is_clause). Qed.
+Print Assumptions C05_gen_conj.
+
+(** gram_op / gram: x -> adj(self(x)) in both directions (MGram) *)
+Theorem C05_gen_gram :
+  forall (K : Type) (r0 : K) (radd rmul : K -> K -> K) (ropp cj : K -> K) (n : nat) (a : mexpr K), @C05_Linop.gram_op_gen (vec K) (vec K) (F K r0 radd rmul ropp cj n a) = F K r0 radd rmul ropp cj n (@MGram K a) /\ (forall x : vec K, @C05_Linop.gram_gen (vec K) (vec K) (F K r0 radd rmul ropp cj n a) x = fadj K r0 radd rmul ropp cj n a (fden K r0 radd rmul ropp cj n a x)).
+Proof. exact (@Gen.gram_is_clause). Qed.
+Print Assumptions C05_gen_gram.
+
+(** ComposedLinearOperator (A(B x), B.adj(A.adj z)) is the MComp clause *)
+Theorem C05_gen_compose :
+  forall (K : Type) (r0 : K) (radd rmul : K -> K -> K) (ropp cj : K -> K) (n : nat) (a b : mexpr K) (jit : bool), @C05_LinopComp.compose_gen (vec K) (vec K) (vec K) (F K r0 radd rmul ropp cj n a) (F K r0 radd rmul ropp cj n b) jit = F K r0 radd rmul ropp cj n (@MComp K a b).
+Proof. exact (@Gen.compose_is_clause). Qed.
+Print Assumptions C05_gen_compose.
+
+(** hence, by induction: the closure pair scico builds for ANY expression tree is (fden, fadj) of the tree *)
+Theorem C05_gen_expression :
+  forall (K : Type) (r0 r1 : K) (radd rmul : K -> K -> K) (ropp cj rinv : K -> K) (n : nat) (e : mexpr K), build K r0 r1 radd rmul ropp cj rinv n e = F K r0 radd rmul ropp cj n e.
+Proof. exact (@Gen.build_is_fden_fadj). Qed.
+Print Assumptions C05_gen_expression.
+
+(** ** Tie to the source, diagonal family.  The class-specific overrides of scico/linop/_diag.py
+    (modules SVGen.C05_Diag, C05_ScaledId, C05_ScaledIdDiag, regenerated by tools/py2coq.py on
+    every run as functions on diagonals / scalars) denote the same operator ([same]: forward and
+    adjoint closures agree at every vector) as the GENERIC construction of scico/linop/_linop.py
+    (module SVGen.C05_Linop) applied to the same operands.  [dop d] = Diagonal(d), [sop c] =
+    ScaledIdentity(c); any commutative ring with involution; x / c is multiplication by rinv c. *)
+From SV Require Import Base.Num C11.Overload LinAlg.GenSig LinAlg.Gen LinAlg.GenDiag.
+From SVGen Require C05_Diag C05_ScaledId C05_ScaledIdDiag.
+
+(** Diagonal overrides: + - (equal lengths), * and / by a scalar, @, conj, H, T (complex-dtype construction; the real-dtype one when the diagonal is real), gram_op *)
+Theorem C05_gen_diagonal_shortcuts :
+  forall (K : Type) (r0 r1 : K) (radd rmul rsub : K -> K -> K) (ropp : K -> K), @ring_theory K r0 r1 radd rmul rsub ropp (@eq K) -> forall cj : K -> K, (forall a b : K, cj (radd a b) = radd (cj a) (cj b)) -> (forall a b : K, cj (rmul a b) = rmul (cj a) (cj b)) -> (forall a : K, cj (cj a) = a) -> cj r0 = r0 -> forall rinv : K -> K, (forall c : K, cj (rinv c) = rinv (cj c)) -> (forall d1 d2 : list K, @length K d1 = @length K d2 -> same K (dop K rmul cj (@C05_Diag.__add___gen K (list K) (KDiag K radd rmul ropp cj rinv) d1 d2)) (@C05_Linop.__add___gen K (vec K) (vec K) (MLin K radd rmul ropp cj rinv) (MLin K radd rmul ropp cj rinv) (dop K rmul cj d1) (dop K rmul cj d2)) /\ same K (dop K rmul cj (@C05_Diag.__sub___gen K (list K) (KDiag K radd rmul ropp cj rinv) d1 d2)) (@C05_Linop.__sub___gen K (vec K) (vec K) (MLin K radd rmul ropp cj rinv) (MLin K radd rmul ropp cj rinv) (dop K rmul cj d1) (dop K rmul cj d2))) /\ (forall (d : vec K) (c : K), same K (dop K rmul cj (@C05_Diag.__mul___gen K (vec K) (KDiag K radd rmul ropp cj rinv) d c)) (@C05_Linop.__mul___gen K (vec K) (vec K) (MSc K r1 ropp cj) (MLin K radd rmul ropp cj rinv) (MLin K radd rmul ropp cj rinv) (dop K rmul cj d) c) /\ same K (dop K rmul cj (@C05_Diag.__truediv___gen K (vec K) (KDiag K radd rmul ropp cj rinv) d c)) (@C05_Linop.__truediv___gen K (vec K) (vec K) (MSc K r1 ropp cj) (MLin K radd rmul ropp cj rinv) (MLin K radd rmul ropp cj rinv) (dop K rmul cj d) c)) /\ (forall (d1 d2 : vec K) (jit : bool), same K (dop K rmul cj (@C05_Diag.__matmul___gen K (vec K) (KDiag K radd rmul ropp cj rinv) d1 d2)) (@C05_LinopComp.compose_gen (vec K) (vec K) (vec K) (dop K rmul cj d1) (dop K rmul cj d2) jit)) /\ (forall d : vec K, same K (dop K rmul cj (@C05_Diag.conj_gen K (vec K) (KDiag K radd rmul ropp cj rinv) d)) (@C05_Linop.conj_gen K (vec K) (vec K) (MLin K radd rmul ropp cj rinv) (MLin K radd rmul ropp cj rinv) (dop K rmul cj d)) /\ same K (dop K rmul cj (@C05_Diag.H_gen K (vec K) (KDiag K radd rmul ropp cj rinv) d)) (@C05_Linop.H_gen (vec K) (vec K) (dop K rmul cj d)) /\ same K (dop K rmul cj (@C05_Diag.T_gen (vec K) d)) (@C05_Linop.T_gen K (vec K) (vec K) (MLin K radd rmul ropp cj rinv) (MLin K radd rmul ropp cj rinv) true (dop K rmul cj d)) /\ (vconj K cj d = d -> same K (dop K rmul cj (@C05_Diag.T_gen (vec K) d)) (@C05_Linop.T_gen K (vec K) (vec K) (MLin K radd rmul ropp cj rinv) (MLin K radd rmul ropp cj rinv) false (dop K rmul cj d))) /\ same K (dop K rmul cj (@C05_Diag.gram_op_gen K (vec K) (KDiag K radd rmul ropp cj rinv) d)) (@C05_Linop.gram_op_gen (vec K) (vec K) (dop K rmul cj d))).
+Proof. exact (@GenDiag.diagonal_shortcuts_are_generic). Qed.
+Print Assumptions C05_gen_diagonal_shortcuts.
+
+(** ScaledIdentity overrides: + -, * and / by a scalar, @ ScaledIdentity, @ Diagonal, conj, gram_op; and ScaledIdentity(c) acts as Diagonal(c, ..., c) *)
+Theorem C05_gen_scaled_identity_shortcuts :
+  forall (K : Type) (r0 r1 : K) (radd rmul rsub : K -> K -> K) (ropp : K -> K), @ring_theory K r0 r1 radd rmul rsub ropp (@eq K) -> forall cj : K -> K, (forall a b : K, cj (radd a b) = radd (cj a) (cj b)) -> (forall a b : K, cj (rmul a b) = rmul (cj a) (cj b)) -> (forall a : K, cj (cj a) = a) -> cj r0 = r0 -> forall rinv : K -> K, (forall c : K, cj (rinv c) = rinv (cj c)) -> (forall c1 c2 : K, same K (sop K rmul cj (@C05_ScaledId.__add___gen K (vec K) (KDiag K radd rmul ropp cj rinv) c1 c2)) (@C05_Linop.__add___gen K (vec K) (vec K) (MLin K radd rmul ropp cj rinv) (MLin K radd rmul ropp cj rinv) (sop K rmul cj c1) (sop K rmul cj c2)) /\ same K (sop K rmul cj (@C05_ScaledId.__sub___gen K (vec K) (KDiag K radd rmul ropp cj rinv) c1 c2)) (@C05_Linop.__sub___gen K (vec K) (vec K) (MLin K radd rmul ropp cj rinv) (MLin K radd rmul ropp cj rinv) (sop K rmul cj c1) (sop K rmul cj c2))) /\ (forall c s : K, same K (sop K rmul cj (@C05_ScaledId.__mul___gen K (vec K) (KDiag K radd rmul ropp cj rinv) c s)) (@C05_Linop.__mul___gen K (vec K) (vec K) (MSc K r1 ropp cj) (MLin K radd rmul ropp cj rinv) (MLin K radd rmul ropp cj rinv) (sop K rmul cj c) s) /\ same K (sop K rmul cj (@C05_ScaledId.__truediv___gen K (vec K) (KDiag K radd rmul ropp cj rinv) c s)) (@C05_Linop.__truediv___gen K (vec K) (vec K) (MSc K r1 ropp cj) (MLin K radd rmul ropp cj rinv) (MLin K radd rmul ropp cj rinv) (sop K rmul cj c) s)) /\ (forall (c1 c2 : K) (jit : bool), same K (sop K rmul cj (@C05_ScaledId.matmul_scaled_gen K (vec K) (KDiag K radd rmul ropp cj rinv) c1 c2)) (@C05_LinopComp.compose_gen (vec K) (vec K) (vec K) (sop K rmul cj c1) (sop K rmul cj c2) jit)) /\ (forall (c : K) (d : vec K) (jit : bool), same K (dop K rmul cj (@C05_ScaledIdDiag.matmul_diag_gen K (vec K) (KDiag K radd rmul ropp cj rinv) c d)) (@C05_LinopComp.compose_gen (vec K) (vec K) (vec K) (sop K rmul cj c) (dop K rmul cj d) jit)) /\ (forall c : K, same K (sop K rmul cj (@C05_ScaledId.conj_gen K (vec K) (KDiag K radd rmul ropp cj rinv) c)) (@C05_Linop.conj_gen K (vec K) (vec K) (MLin K radd rmul ropp cj rinv) (MLin K radd rmul ropp cj rinv) (sop K rmul cj c)) /\ same K (sop K rmul cj (@C05_ScaledId.gram_op_gen K (vec K) (KDiag K radd rmul ropp cj rinv) c)) (@C05_Linop.gram_op_gen (vec K) (vec K) (sop K rmul cj c)) /\ (forall x : vec K, @l_eval (vec K) (vec K) (sop K rmul cj c) x = @l_eval (vec K) (vec K) (dop K rmul cj (@repeat K c (@length K x))) x)).
+Proof. exact (@GenDiag.scaled_identity_shortcuts_are_generic). Qed.
+Print Assumptions C05_gen_scaled_identity_shortcuts.
+
+(** ** Tie to the source, convolution family.  The overrides of + - and scalar * / in Convolve,
+    ConvolveByX (scico/linop/_convolve.py) and CircularConvolve (scico/linop/_circconv.py),
+    regenerated by tools/py2coq.py (modules SVGen.C05_Conv, C05_ConvX, C05_Circ): over ANY
+    signature of scalars / kernels / vectors, the forward map of the combined kernel is the
+    generic forward closure whenever convolution is bilinear in the kernel (resp. the element-wise
+    product distributes and the inverse DFT is linear). *)
+From SV Require Import Base.Num C11.Overload LinAlg.GenSig LinAlg.GenConv.
+From SVGen Require C05_Linop C05_Conv C05_ConvX C05_Circ.
+
+Theorem C05_gen_convolve_shortcuts :
+  forall (Sc Hk X Y : Type) (SS : ScSig Sc) (DK : DiagSig Sc Hk) (LX : LinSig Sc X) (LY : LinSig Sc Y) (conv : Hk -> X -> Y), (forall (h1 h2 : Hk) (x : X), conv (@dg_add Sc Hk DK h1 h2) x = @l_add Sc Y LY (conv h1 x) (conv h2 x)) -> (forall (h1 h2 : Hk) (x : X), conv (@dg_sub Sc Hk DK h1 h2) x = @l_sub Sc Y LY (conv h1 x) (conv h2 x)) -> (forall (h : Hk) (c : Sc) (x : X), conv (@dg_muls Sc Hk DK h c) x = @l_smul Sc Y LY c (conv h x)) -> (forall (h : Hk) (c : Sc) (x : X), conv (@dg_divs Sc Hk DK h c) x = @l_sdiv Sc Y LY (conv h x) c) -> forall (A B : kop Hk X Y) (c : Sc) (x : X), @l_eval X Y (@opk Hk X Y conv (@C05_Conv.__add___gen Sc Hk X Y DK LX A B)) x = @l_eval X Y (@C05_Linop.__add___gen Sc X Y LX LY (@opk Hk X Y conv A) (@opk Hk X Y conv B)) x /\ @l_eval X Y (@opk Hk X Y conv (@C05_Conv.__sub___gen Sc Hk X Y DK LX A B)) x = @l_eval X Y (@C05_Linop.__sub___gen Sc X Y LX LY (@opk Hk X Y conv A) (@opk Hk X Y conv B)) x /\ @l_eval X Y (@opk Hk X Y conv (@C05_Conv.__mul___gen Sc Hk X Y SS DK LX A c)) x = @l_eval X Y (@C05_Linop.__mul___gen Sc X Y SS LX LY (@opk Hk X Y conv A) c) x /\ @l_eval X Y (@opk Hk X Y conv (@C05_Conv.__truediv___gen Sc Hk X Y SS DK LX A c)) x = @l_eval X Y (@C05_Linop.__truediv___gen Sc X Y SS LX LY (@opk Hk X Y conv A) c) x /\ @l_eval X Y (@opk Hk X Y conv (@C05_ConvX.__add___gen Sc Hk X Y DK LX A B)) x = @l_eval X Y (@C05_Linop.__add___gen Sc X Y LX LY (@opk Hk X Y conv A) (@opk Hk X Y conv B)) x /\ @l_eval X Y (@opk Hk X Y conv (@C05_ConvX.__sub___gen Sc Hk X Y DK LX A B)) x = @l_eval X Y (@C05_Linop.__sub___gen Sc X Y LX LY (@opk Hk X Y conv A) (@opk Hk X Y conv B)) x /\ @l_eval X Y (@opk Hk X Y conv (@C05_ConvX.__mul___gen Sc Hk X Y SS DK LX A c)) x = @l_eval X Y (@C05_Linop.__mul___gen Sc X Y SS LX LY (@opk Hk X Y conv A) c) x /\ @l_eval X Y (@opk Hk X Y conv (@C05_ConvX.__truediv___gen Sc Hk X Y SS DK LX A c)) x = @l_eval X Y (@C05_Linop.__truediv___gen Sc X Y SS LX LY (@opk Hk X Y conv A) c) x.
+Proof. exact (@GenConv.conv_forward_is_generic). Qed.
+Print Assumptions C05_gen_convolve_shortcuts.
+
+Theorem C05_gen_circular_convolve_shortcuts :
+  forall (Sc V X : Type) (SS : ScSig Sc) (DS : DiagSig Sc V) (LX : LinSig Sc X) (F : X -> V) (Fi : V -> X), (forall h1 h2 v : V, @dg_mul Sc V DS (@dg_add Sc V DS h1 h2) v = @dg_add Sc V DS (@dg_mul Sc V DS h1 v) (@dg_mul Sc V DS h2 v)) -> (forall h1 h2 v : V, @dg_mul Sc V DS (@dg_sub Sc V DS h1 h2) v = @dg_sub Sc V DS (@dg_mul Sc V DS h1 v) (@dg_mul Sc V DS h2 v)) -> (forall (h : V) (c : Sc) (v : V), @dg_mul Sc V DS (@dg_muls Sc V DS h c) v = @dg_smul Sc V DS c (@dg_mul Sc V DS h v)) -> (forall (h : V) (c : Sc) (v : V), @dg_mul Sc V DS (@dg_divs Sc V DS h c) v = @dg_divs Sc V DS (@dg_mul Sc V DS h v) c) -> (forall u v : V, Fi (@dg_add Sc V DS u v) = @l_add Sc X LX (Fi u) (Fi v)) -> (forall u v : V, Fi (@dg_sub Sc V DS u v) = @l_sub Sc X LX (Fi u) (Fi v)) -> (forall (c : Sc) (v : V), Fi (@dg_smul Sc V DS c v) = @l_smul Sc X LX c (Fi v)) -> (forall (c : Sc) (v : V), Fi (@dg_divs Sc V DS v c) = @l_sdiv Sc X LX (Fi v) c) -> forall (h1 h2 : V) (c : Sc) (a1 a2 : X -> X) (x : X), @cc Sc V X DS F Fi (@C05_Circ.__add___gen Sc V DS h1 h2) x = @l_eval X X (@C05_Linop.__add___gen Sc X X LX LX {| l_eval := @cc Sc V X DS F Fi h1; l_adj := a1 |} {| l_eval := @cc Sc V X DS F Fi h2; l_adj := a2 |}) x /\ @cc Sc V X DS F Fi (@C05_Circ.__sub___gen Sc V DS h1 h2) x = @l_eval X X (@C05_Linop.__sub___gen Sc X X LX LX {| l_eval := @cc Sc V X DS F Fi h1; l_adj := a1 |} {| l_eval := @cc Sc V X DS F Fi h2; l_adj := a2 |}) x /\ @cc Sc V X DS F Fi (@C05_Circ.__mul___gen Sc V DS h1 c) x = @l_eval X X (@C05_Linop.__mul___gen Sc X X SS LX LX {| l_eval := @cc Sc V X DS F Fi h1; l_adj := a1 |} c) x /\ @cc Sc V X DS F Fi (@C05_Circ.__truediv___gen Sc V DS h1 c) x = @l_eval X X (@C05_Linop.__truediv___gen Sc X X SS LX LX {| l_eval := @cc Sc V X DS F Fi h1; l_adj := a1 |} c) x.
+Proof. exact (@GenConv.circ_forward_is_generic). Qed.
+Print Assumptions C05_gen_circular_convolve_shortcuts.
